@@ -417,7 +417,8 @@ def _r11(ctx, pkg):
     # ---- hop 2: _add_reaction -> _reaction_factory
     pkg.method("Network", "_add_reaction")
     afn = pkg.folded("Network", "_add_reaction")
-    afl = Flow(afn, NET)
+    # (a helper that turns the (line, format) pair into an instance -- `reaction = self._as_reaction(reaction)` -- is read as the value it returns)
+    afl = Flow(afn, NET, resolver=lambda name: pkg.resolve("Network", name)[1] if name.startswith("_") and not name.startswith("__") else None)
     rp = ("param", afn.args.args[1].arg) if len(afn.args.args) >= 2 else None
     calls = {x for val in [f.value for f in afl.facts if f.value is not None] + [v for lst in afl.assigns.values() for v, *_ in lst] for x in walk(simp(val))
              if isinstance(x, tuple) and len(x) == 4 and x[0] == "call" and x[1] == ("global", "_reaction_factory")}
